@@ -22,7 +22,7 @@ def pipeline_for(prog, rec, tier, rules, monitor=False, spawn=False, explanation
     return pa
 
 
-def combined(prog, rec, tier, rules, driver=(), hmac=(), pipe=False, monitor=False, spawn=False, explanation='', hash=()):
+def combined(prog, rec, tier, rules, driver=(), hmac=(), pipe=False, monitor=False, spawn=False, explanation='', hash=(), modes=(), aes=()):
     """Run the selected shared analyses, keep the obligations of `rules`."""
     from . import monitor as mon
     info = {}
@@ -45,6 +45,19 @@ def combined(prog, rec, tier, rules, driver=(), hmac=(), pipe=False, monitor=Fal
         hr = HmacRules(prog, rec)
         for part in hmac:
             getattr(hr, part)()
+    if modes:
+        from .mode_rules import ModeRules
+        mr = ModeRules(prog, rec)
+        for part in modes:
+            getattr(mr, part)()
+    if aes:
+        from .aes_rules import AesRules
+        ar = AesRules(prog, rec)
+        for part in aes:
+            if isinstance(part, tuple):
+                getattr(ar, part[0])(*part[1:])
+            else:
+                getattr(ar, part)()
     if hash:
         from .hash_rules import HashRules
         hs = HashRules(prog, rec)
